@@ -11,6 +11,7 @@ CONSTANTS
  Skew = FALSE
  FsckFlags = {"none","objects","pointers","dry-run"}
  Excludes = {{}, {"p1"}}
+ Includes = {{}, {"p2"}}
  Damages = {"absent","corrupt","truncated","extended","replaced"}
 SPECIFICATION FSpec
 VIEW FView
